@@ -186,7 +186,13 @@ func genOnce(r *rand.Rand, cfg Cfg, try int) *ast.Grammar {
 		}
 		rule := ast.NewRule(ast.Pos{}, ast.NewIdentifier(ast.Pos{}, s.names[i]))
 		if r.Intn(4) == 0 {
-			rule.DisplayName = ast.NewStringLit(ast.Pos{}, SpellLit(r, s.displayVal(), 0, cfg.Avoid))
+			dv := s.displayVal()
+			if n > 1 && r.Intn(3) == 0 {
+				// a display name that IS the identifier of another rule: display names are texts for messages, never a
+				// way to refer to a rule (round 22: -alternate-entrypoints resolved through display names)
+				dv = s.names[(i+1+r.Intn(n-1))%n]
+			}
+			rule.DisplayName = ast.NewStringLit(ast.Pos{}, SpellLit(r, dv, 0, cfg.Avoid))
 		}
 		depth := cfg.MaxDepth
 		if try > 20 {
